@@ -109,14 +109,24 @@ impl BaseStream {
         write!(stream, "\r\n")?;
 
         let mut stream = BufReaderWrite::new(stream);
-        let (status, _) = parse_response_head(&mut stream, base_settings.max_headers)?;
+        let (status, headers) = parse_response_head(&mut stream, base_settings.max_headers)?;
 
         debug!("tunnel response status code is {}", status);
 
         if !status.is_success() {
             // Error initializaing tunnel, get status code and up to 10 KiB of data from the body.
+            // The body only illustrates the refusal: a proxy that keeps the connection open after
+            // it, or a body that ends early, must not turn the refusal into a timeout or I/O error.
+            let mut limit = 10 * 1024;
+            if let Some(len) = headers
+                .get(http::header::CONTENT_LENGTH)
+                .and_then(|val| val.to_str().ok())
+                .and_then(|val| val.parse::<u64>().ok())
+            {
+                limit = limit.min(len);
+            }
             let mut buf = Vec::with_capacity(2048);
-            stream.take(10 * 1024).read_to_end(&mut buf)?;
+            let _ = stream.take(limit).read_to_end(&mut buf);
             let err = ErrorKind::ConnectError {
                 status_code: status,
                 body: buf,
